@@ -111,6 +111,22 @@ def obligation(item):
         f = Formulas(g, mm, inp, extra_cfg=cfg)
     except Unsupported as e:
         res['verdict'] = 'unsupported: %s' % e
+        # the live parser model cannot be encoded: at least no load of a probe text may crash
+        try:
+            mm = pegcheck.build_mm(g, **cfg)
+            for text in ('', '0', 'a', ' 0 0', 'a 0 ;'):
+                kind, val = real_load(mm, text)
+                res['validated'] += 1
+                if kind == 'error':
+                    res['violations'].append({'grammar': g['name'], 'cfg': cfg, 'text': text, 'kind': 'model',
+                                              'detail': 'load raises %s: %s (the live parser model could not be '
+                                                        'encoded: %s)' % (type(val).__name__, val, e)})
+                    res['verdict'] = 'violated'
+                    break
+        except Exception as e2:  # noqa
+            res['violations'].append({'grammar': g['name'], 'cfg': cfg, 'text': None, 'kind': 'model',
+                                      'detail': 'the grammar does not compile: %s: %s' % (type(e2).__name__, e2)})
+            res['verdict'] = 'violated'
         return res
     z = Z3(timeout_ms)
     z.add(*inp.domain())
